@@ -204,7 +204,9 @@ class Interp:
                     self.clean_ops_atomic.append(o2)     # all-or-nothing reading: a call with a rejected pair is void
             raised = None
             try:
-                self.w.connect(src["ent"], dst["ent"], *pairs, **kw)
+                # a pair of equally named attributes may be given as one string (documented shorthand)
+                args = [p_[0] if (flags.get("strform") and p_[0] == p_[1]) else p_ for p_ in pairs]
+                self.w.connect(src["ent"], dst["ent"], *args, **kw)
             except ScenarioError as e:
                 raised = e
             except Exception as e:  # noqa
@@ -403,6 +405,9 @@ def table_programs():
                                 conn = ["connect", 1 if rev else 0, 0 if rev else 1, [[sa, da]],
                                         {"shift": shift, "weak": weak, "init": list(init)}]
                                 yield {"ops": placement_ops(pa, pb, desc) + [conn], "until": 4}
+                                if sa == da:
+                                    conn_s = conn[:4] + [dict(conn[4], strform=True)]
+                                    yield {"ops": placement_ops(pa, pb, desc) + [conn_s], "until": 4}
                                 if pb and max(pa + pb) < 9:
                                     # the same call issued inside the still open group block(s) of the second
                                     # simulator, in both directions (scripts need not connect after the blocks)
@@ -600,7 +605,8 @@ def shard(prop, tier, seed, shard, nshards):
         pairs = draw(st.lists(st.tuples(attr, attr).map(list), min_size=1, max_size=3))
         flags = {"shift": draw(st.sampled_from([0, 0, True, 1, 2])), "weak": draw(st.sampled_from([False, False, True])),
                  "init": draw(st.lists(st.sampled_from([p[0] for p in pairs]), unique=True, max_size=3)),
-                 "async": draw(st.integers(0, 6)) == 0, "se": draw(st.integers(0, 3)), "de": draw(st.integers(0, 3))}
+                 "async": draw(st.integers(0, 6)) == 0, "se": draw(st.integers(0, 3)), "de": draw(st.integers(0, 3)),
+                 "strform": draw(st.booleans())}
         return ["connect", draw(st.integers(0, 4)), draw(st.integers(0, 4)), pairs, flags]
 
     op = st.one_of(st.just(["enter"]), st.just(["leave"]), start_op(), start_op(), connect_op(), connect_op(),
